@@ -953,27 +953,49 @@ def oracle(ctx, plan, obs):
                                   f'{routine}: variances {v2.tolist()} are not the sample covariance over the {len(per_mean)} '
                                   f'usable resamples of the per-resample means (model block {blk.tolist()})')
             ctx.probe('variances_checked')
-    elif routine == 'bootstrap_crossval' and res.variances is not None:
+    elif res.variances is not None:
         # the documented correction: the variance of a mean over n repetitions is modelled as a + b / n; from the two
         # observed points (single repetitions: a + b, mean of n_cv repetitions: a + b / n_cv) the limit a for infinitely
         # many repetitions is (n_cv * var_mean - var_1) / (n_cv - 1), computed from the stored evaluations and ceilings
+        # (covariances of anti-correlated models are negative and stay negative)
         try:
             ev = np.asarray(res.evaluations, dtype=float)
             nc_ = np.asarray(res.noise_ceiling, dtype=float)
-            okr = ~np.isnan(ev[:, 0, 0, 0])
-            n_cv = ev.shape[-1]
-            if okr.sum() >= 2 and nc_.shape == (2, ev.shape[0], n_cv):
-                ev_mean = ev[okr].mean(axis=(-1, -2))                   # (N_ok, nm)
-                ev_1 = ev[okr].mean(axis=-2)                            # (N_ok, nm, n_cv)
-                nc_mean = nc_[:, okr].mean(axis=-1)                     # (2, N_ok)
+
+            def two_point(ev, nc_):
+                """ev: (N_ok, nm, folds, n_cv) or (N_ok, nm, n_cv); nc_: (2, N_ok, n_cv)"""
+                n_cv = ev.shape[-1]
+                ev_1 = ev.mean(axis=2) if ev.ndim == 4 else ev           # (N_ok, nm, n_cv)
+                ev_mean = ev_1.mean(axis=-1)                             # (N_ok, nm)
+                nc_mean = nc_.mean(axis=-1)                              # (2, N_ok)
                 var_mean = np.cov(np.concatenate([ev_mean.T, nc_mean]))
-                var_1 = np.mean([np.cov(np.concatenate([ev_1[:, :, i].T, nc_[:, okr, i]])) for i in range(n_cv)], axis=0)
-                expv = (n_cv * var_mean - var_1) / (n_cv - 1)
-                if np.asarray(res.variances).shape == expv.shape and not _close(np.asarray(res.variances), expv, 1e-7):
+                var_1 = np.mean([np.cov(np.concatenate([ev_1[:, :, i].T, nc_[:, :, i]])) for i in range(n_cv)], axis=0)
+                return (n_cv * var_mean - var_1) / (n_cv - 1)
+            expv = None
+            if routine == 'eval_dual_bootstrap':
+                okr = ~np.isnan(ev[:, 0, 0, 0, 0])
+                if okr.sum() >= 2 and ev.ndim == 5 and nc_.shape == (2, ev.shape[0], ev.shape[3], 3):
+                    expv = np.array([two_point(ev[okr][..., t], nc_[:, okr][..., t]) for t in range(3)])
+            elif routine == 'bootstrap_crossval':
+                okr = ~np.isnan(ev[:, 0, 0, 0])
+                if okr.sum() >= 2 and nc_.shape == (2, ev.shape[0], ev.shape[-1]):
+                    expv = two_point(ev[okr], nc_[:, okr])
+            else:
+                okr = ~np.isnan(ev[:, 0, 0])
+                if okr.sum() >= 2 and ev.ndim == 3 and nc_.shape == (2, ev.shape[0], ev.shape[-1]):
+                    expv = two_point(ev[okr], nc_[:, okr])
+            if expv is not None:
+                got = np.asarray(res.variances)
+                if got.shape == expv.shape and not _close(got, expv, 1e-7):
+                    bad = np.unravel_index(np.nanargmax(np.abs(got - expv)), expv.shape)
                     ctx.violation('eval_ref.clause5', f'{routine}:variances:corrected',
-                                  f'{routine} (use_correction, n_cv={n_cv}): variances are not (n_cv * cov of per-resample means - mean cov '
-                                  f'of single repetitions) / (n_cv - 1); e.g. [0,0] {np.asarray(res.variances)[0, 0]!r} vs {expv[0, 0]!r}')
+                                  f'{routine} (use_correction, n_cv={ev.shape[-1] if routine != "eval_dual_bootstrap" else ev.shape[3]}): variances are not '
+                                  f'(n_cv * cov of per-resample means - mean cov of single repetitions) / (n_cv - 1); '
+                                  f'e.g. {list(map(int, bad))} {got[bad]!r} vs {expv[bad]!r}')
                 ctx.probe('corrected_variances_checked')
+                ctx.probe('corrected_variances_checked:' + routine)
+                if np.any(expv < 0):
+                    ctx.probe('corrected_variances_with_negative_entry')
         except StopRun:
             raise
         except Exception:
